@@ -16,6 +16,10 @@ Inductive cop :=
    atoms are read through Go regexp (the pruning path evaluates them that way), ids by the show-series path, ids by the
    select path *)
 | CQuery (m : N) (e : expr) (alts : list expr) (ids1 ids2 : list N)
+(* the same with alternative readings of the predicate for the show-series path (alts1): code 30 (information, not a
+   mismatch) when the show-series path equals one of them and not the predicate itself *)
+| CQueryA (m : N) (e : expr) (alts1 alts : list expr) (ids1 ids2 : list N)
+| CCondA (m : N) (e : expr) (alts1 : list expr) (card : N) (ss : list series) (vals : list (N * list N)) (vcards : list (N * N))
 | CList (m : N) (ss : list series) (keys : list N) (vals : list (N * list N))
 (* a predicate with IN / NOT IN atoms (rendered as OR of = / AND of !=): only the select path implements them *)
 | CQuery2 (m : N) (e : expr) (alts : list expr) (ids2 : list N)
@@ -35,6 +39,15 @@ Definition sset_eqb (a b : list series) : bool :=
 (* codes: 1 insert id, 3 ids by the show-series path, 5 ids by the select path (no reading matches), 6 series listing,
    7 tag-key listing, 8 tag-value listing, 11 series cardinality with condition, 12 series keys with condition, 13 tag values
    with condition, 14 tag value cardinality *)
+Definition cond_codes (cn : bool) (am : N -> N -> bool) (i : index) (m : N) (e : expr) (card : N) (ss : list series)
+    (vals : list (N * list N)) (vcards : list (N * N)) : list N :=
+  let T := postings (vis i) in
+  let p1 := dedup (if cn then search_ids_top_current am T m e else search_ids_repaired am T m e) in
+  (if N.of_nat (length p1) =? card then [] else [11]) ++
+  (if sset_eqb (flat_map (key_of (vis i)) p1) ss then [] else [12]) ++
+  (if forallb (fun kv => set_eqb (map t_v (filter (fun t => (t_m t =? m) && (t_k t =? fst kv) && mem (t_id t) p1) T)) (snd kv)) vals
+   then [] else [13]) ++
+  (if forallb (fun kc => N.of_nat (tag_value_cardinality (vis i) m (fst kc)) =? snd kc) vcards then [] else [14]).
 Definition check_op (cl cn : bool) (tab : list (N * N)) (i : index) (o : cop) : index * list N :=
   let slow := if cl then slow_current else slow_repaired in
   let am := am_tab tab in
@@ -52,14 +65,19 @@ Definition check_op (cl cn : bool) (tab : list (N * N)) (i : index) (o : cop) : 
   | CQuery2 m e alts ids2 =>
       let T := postings (vis i) in
       (i, if existsb (fun e' => set_eqb (search am T m e') ids2) (e :: alts) then [] else [5])
-  | CCond m e card ss vals vcards =>
+  | CCond m e card ss vals vcards => (i, cond_codes cn am i m e card ss vals vcards)
+  | CCondA m e alts1 card ss vals vcards =>
+      let c0 := cond_codes cn am i m e card ss vals vcards in
+      (i, match c0 with
+          | [] => []
+          | _ => if existsb (fun e' => match cond_codes cn am i m e' card ss vals vcards with [] => true | _ => false end) alts1
+                 then [30] else c0
+          end)
+  | CQueryA m e alts1 alts ids1 ids2 =>
       let T := postings (vis i) in
-      let p1 := dedup (if cn then search_ids_top_current am T m e else search_ids_repaired am T m e) in
-      (i, (if N.of_nat (length p1) =? card then [] else [11]) ++
-          (if sset_eqb (flat_map (key_of (vis i)) p1) ss then [] else [12]) ++
-          (if forallb (fun kv => set_eqb (map t_v (filter (fun t => (t_m t =? m) && (t_k t =? fst kv) && mem (t_id t) p1) T)) (snd kv)) vals
-           then [] else [13]) ++
-          (if forallb (fun kc => N.of_nat (tag_value_cardinality (vis i) m (fst kc)) =? snd kc) vcards then [] else [14]))
+      let p1 := fun x => if cn then search_ids_top_current am T m x else search_ids_repaired am T m x in
+      (i, (if set_eqb (p1 e) ids1 then [] else if existsb (fun e' => set_eqb (p1 e') ids1) alts1 then [30] else [3]) ++
+          (if existsb (fun e' => set_eqb (search am T m e') ids2) (e :: alts) then [] else [5]))
   | CList m ss keys vals =>
       (i, (if sset_eqb (list_series (vis i) m) ss then [] else [6]) ++
           (if set_eqb (list_tag_keys (vis i) m) keys then [] else [7]) ++
